@@ -13,6 +13,9 @@ CHECKS = {
  "C19": (True, MC, "differential exhaustive enumeration (bare vs wrapped) over the full product of probe member alphabets",
          "For six probe types x positions {root, field, Option field, Vec field} every value of the member-alphabet product is serialized, deserialized, restriction-checked, defaulted and cloned both bare and wrapped in the real MultiRef; any observable difference is a violation. Self-referential probes are compared with an independently written wrapper in supervised sub-processes.",
          "Trusted: yaserde 0.12 / xml-rs 0.8, the probe types. Recursive deserialization does not terminate in yaserde for either wrapper and is excluded by the differential rule (listed in the evidence).", "4/C19"),
+ "C15": (True, FE, "exhaustive single-fault injection at every write-call index of the real write_xml, plus short-write patterns",
+         "For every corpus document (all repository inputs the generator accepts, generated seeds covering every emitter, a no-namespace WSDL) a failure is injected once at every write-call index k in [0,N) for each error kind (Other, BrokenPipe, PermissionDenied, StorageFull, Ok(0), Interrupted) and four short-write patterns are applied; the real write_xml must return an I/O error (never Ok, never panic) resp. the byte-identical output. All 105 write!/writeln! sites of the generator are reached by the corpus (checked against a static scan on every run).",
+         "Quick tier: every k with every kind for documents up to 3000 write calls, every k with kind Other for larger ones, Exchange (128858 calls) only in the thorough tier. One fault per run (no fault pairs). Write-site attribution relies on line tables of an opt-level 0 build of zeep-lib.", "4/C15"),
 }
 
 NOT_YET = {
